@@ -474,7 +474,7 @@ def check_second_manager(obs, ro, cancelled=False):
     of node events the first manager saw."""
     out = []
     run = ro.tag
-    ev2 = [r for r in obs.trace if r['run'] == run and r['k'].startswith('cb2_')]
+    ev2 = [r for r in obs.trace if r['run'] == run and r['k'].startswith('cb2_') and r['k'] != 'cb2_resume']
     if not ev2:
         return out
     finished = ro.outcome in ('value', 'error')
